@@ -216,6 +216,17 @@ func GenRecSystem(t *rapid.T) (*Grammar, map[string]bool) {
 			multi = len(g.Unions) - 1
 		}
 	}
+	// optional helper productions that can match nothing (Sign = "-"?; Signs = Sign Sign), each reachable
+	// through its own union: a nullable *production* in front of a recursive reference
+	nhelp := 0
+	if len(g.Unions) <= 4 {
+		nhelp = rapid.IntRange(0, 2).Draw(t, "nhelpers")
+	}
+	helperUnion := []int{}
+	for h := 0; h < nhelp && len(g.Unions) < MaxUnions; h++ {
+		helperUnion = append(helperUnion, len(g.Unions))
+		g.Unions = append(g.Unions, Union{Members: []int{np + h}, Ptr: []bool{false}})
+	}
 	used := map[string]bool{}
 	c := &genCtx{t: t, g: g}
 	leaf := func() *Expr {
@@ -261,6 +272,15 @@ func GenRecSystem(t *rapid.T) (*Grammar, map[string]bool) {
 		return s
 	}
 	nullablePrefix := func() *Expr {
+		if len(helperUnion) > 0 && rapid.IntRange(0, 2).Draw(t, "usehelper") == 0 {
+			used["after_nullable_production"] = true
+			u := helperUnion[rapid.IntRange(0, len(helperUnion)-1).Draw(t, "helper")]
+			if rapid.Bool().Draw(t, "twice") {
+				used["after_nullable_production_mentioned_twice"] = true
+				return Seq(SubU(u), SubU(u))
+			}
+			return SubU(u)
+		}
 		switch rapid.IntRange(0, 4).Draw(t, "np") {
 		case 0:
 			used["after_optional_prefix"] = true
@@ -329,6 +349,15 @@ func GenRecSystem(t *rapid.T) (*Grammar, map[string]bool) {
 			e = Seq(e, Cap(Lit(";")))
 		}
 		g.Prods = append(g.Prods, &Prod{Expr: e, PosStyle: 3, TagStyle: rapid.IntRange(0, 1).Draw(t, "tagstyle")})
+	}
+	for h := range helperUnion {
+		var e *Expr
+		if h > 0 && rapid.Bool().Draw(t, "helperOfHelper") {
+			e = Seq(SubU(helperUnion[h-1]), SubU(helperUnion[h-1])) // Signs = Sign Sign
+		} else {
+			e = Group("?", Cap(c.leaf()))
+		}
+		g.Prods = append(g.Prods, &Prod{Expr: e, PosStyle: 3})
 	}
 	for i, p := range g.Prods {
 		assignFields(t, p, p.Expr, i)
